@@ -122,7 +122,7 @@ func runSched(raw json.RawMessage) (res *Result, err error) {
 		select {
 		case e := <-events:
 			return e, true
-		case <-time.After(3 * time.Second):
+		case <-time.After(15 * time.Second):
 			return gEvent{}, false
 		}
 	}
